@@ -72,3 +72,16 @@ open Cherab.Props.C17
 #print axioms drawN_never_leaves_table
 #print axioms grid_rejected_op_unchanged
 #print axioms grid_active_exactly_one
+-- round 6: constructor validation ladder on raw rows; constructor outcome independent of the listing; collection-level sampling
+#print axioms mkVoxelRows_agrees
+#print axioms rowLadder_first_offender
+#print axioms rowLadder_ok_iff
+#print axioms mkVoxel_ok_iff
+#print axioms mkVoxelRows_ok_iff
+#print axioms mkVoxel_stored
+#print axioms ctor_geom_rotate
+#print axioms ctor_geom_reverse
+#print axioms emissivities_length
+#print axioms emissivities_entry
+#print axioms emissivities_const
+#print axioms emissivities_zero_samples
